@@ -113,6 +113,44 @@ Theorem C11_does_var_have_ops_is_scan : forall nv nb sl v, v < nv ->
 Proof. exact does_var_have_ops_is_scan. Qed.
 Print Assumptions C11_does_var_have_ops_is_scan.
 
+(* the cursor construction fill_args_at_p (backward walk over the links with its early exit on the
+   "unfilled" counter) builds exactly the cursor a scan yields, at every position of every string whose
+   operators each act on at least one variable *)
+From QmcV Require Import Proofs.FillArgsProofs.
+
+Theorem C11_fill_args_at_p_is_scan_cursor : forall nv nb sl p,
+  wf_slots nv nb sl -> p < length sl ->
+  (forall q o, nth_error sl q = Some (Some o) -> o_vars o <> []) ->
+  fill_args_at_p (build nv nb sl) p = scan_cursor nv sl p.
+Proof. exact fill_args_refines. Qed.
+Print Assumptions C11_fill_args_at_p_is_scan_cursor.
+
+(* hence mutate_subsection(pstart, pend, f, None) as a whole — grow, build the cursor, fold mutate_p —
+   ends in the structure a scan of the updated slots yields *)
+Theorem C11_mutate_subsection_refines : forall nv nb sl pstart decs,
+  wf_slots nv nb sl -> Forall (wf_decision nv nb) decs ->
+  (forall q o, nth_error sl q = Some (Some o) -> o_vars o <> []) ->
+  0 < length decs ->
+  mutate_subsection (build nv nb sl) pstart decs
+  = build nv nb (apply_decs (sl ++ repeat None (pstart + length decs - length sl)) pstart decs).
+Proof. exact mutate_subsection_refines. Qed.
+Print Assumptions C11_mutate_subsection_refines.
+
+(* the side condition cannot be dropped: with only a zero-variable operator stored, the code's
+   `unfilled == 0` shortcut leaves last_p unset although an operator precedes p (not reachable through
+   the samplers, which build cursors at p = 0 or through sub-variable cursors) *)
+Theorem C11_fill_args_zero_variable_refuted :
+  exists nv nb sl p, wf_slots nv nb sl /\ p < length sl
+    /\ fill_args_at_p (build nv nb sl) p <> scan_cursor nv sl p.
+Proof.
+  exists 1, None, [Some (mkOp [] 0 [] [] false); None], 1.
+  split; [|split; [cbn; auto|vm_compute; discriminate]].
+  intros q o Hq. destruct q as [|[|q]]; cbn in Hq; try discriminate.
+  - inversion Hq; subst. repeat split; [constructor|intros v []].
+  - destruct q; discriminate.
+Qed.
+Print Assumptions C11_fill_args_zero_variable_refuted.
+
 (* non-vacuity: a string with a two-variable operator between single-site ones *)
 Example C11_ex_walk :
   let sl := [Some (mkOp [1] 3 [true] [false] true); None; Some (mkOp [0; 1] 0 [true; false] [true; false] false);
